@@ -168,26 +168,29 @@ The sequential model above takes `RefreshAssignments` as one step.  That is just
 of any number of callers the outcome at quiescence is the sequential one. -/
 
 open Firebolt.RefreshConc in
-/-- whatever the schedule of the goroutines' steps: when all calls have returned the recovery client is assigned exactly
-the owned partitions with an outstanding request -/
-theorem refresh_any_interleaving (req : Part → Bool) (s0 : Sys) (h0 : Inv req s0) (sched : List Nat)
-    (hq : ∀ j, ((run (step req) s0 sched).th j).todo = []) :
-    (run (step req) s0 sched).sh.client = (run (step req) s0 sched).sh.active ∧
-    ∀ p, p ∈ (run (step req) s0 sched).sh.client ↔ (p ∈ (run (step req) s0 sched).sh.owned ∧ req p = true) :=
-  refresh_serialised req s0 h0 sched hq
+/-- whatever the schedule of the goroutines' steps — refreshes, assignments and revocations (`setOwned`; `refresh`), and
+changes of the tracker (`setReq`: requests filed or received, completions) at any moment —: when all calls have returned and
+the tracker has not changed since the last refresh built its candidates, the recovery client is assigned exactly the owned
+partitions with an outstanding request -/
+theorem refresh_any_interleaving (s0 : Sys) (h0 : Inv s0) (sched : List Nat)
+    (hq : ∀ j, ((run step s0 sched).th j).todo = []) (hst : (run step s0 sched).sh.stale = false) :
+    (run step s0 sched).sh.client = (run step s0 sched).sh.active ∧
+    ∀ p, p ∈ (run step s0 sched).sh.client ↔ (p ∈ (run step s0 sched).sh.owned ∧ p ∈ (run step s0 sched).sh.reqs) :=
+  refresh_serialised s0 h0 sched hq hst
 
 open Firebolt.RefreshConc in
 /-- a revocation that has returned leaves the recovery client without partitions, whatever refresh was in flight -/
-theorem revocation_any_interleaving (req : Part → Bool) (s0 : Sys) (h0 : Inv req s0) (sched : List Nat)
-    (hq : ∀ j, ((run (step req) s0 sched).th j).todo = []) (hrev : (run (step req) s0 sched).sh.owned = []) :
-    (run (step req) s0 sched).sh.client = [] :=
-  revoked_reads_nothing req s0 h0 sched hq hrev
+theorem revocation_any_interleaving (s0 : Sys) (h0 : Inv s0) (sched : List Nat)
+    (hq : ∀ j, ((run step s0 sched).th j).todo = []) (hst : (run step s0 sched).sh.stale = false)
+    (hrev : (run step s0 sched).sh.owned = []) :
+    (run step s0 sched).sh.client = [] :=
+  revoked_reads_nothing s0 h0 sched hq hst hrev
 
 open Firebolt.RefreshConc in
 /-- the callers cannot block one another for good: while a call is outstanding some goroutine can step -/
-theorem refresh_no_deadlock (req : Part → Bool) (s : Sys) (hI : Inv req s) (j : Nat) (hj : (s.th j).todo ≠ []) :
-    ∃ i, (step req s i).isSome = true :=
-  progress req s hI j hj
+theorem refresh_no_deadlock (s : Sys) (hI : Inv s) (j : Nat) (hj : (s.th j).todo ≠ []) :
+    ∃ i, (step s i).isSome = true :=
+  progress s hI j hj
 
 open Firebolt.RefreshConc in
 /-- the test `partitionAssignmentsChanged` makes on two maps is set equality of their keys -/
@@ -205,7 +208,13 @@ theorem protocol_before_F12_lost_revocations :
 
 open Firebolt.RefreshConc in
 /-- non-vacuity: the demo system (ticker refresh ∥ revocation) satisfies the invariant's start condition -/
-theorem refresh_demo_meets_hypotheses : Inv demoReq demo := demo_inv
+theorem refresh_demo_meets_hypotheses : Inv demo := demo_inv
+
+/-! ### the successor learns the progress point from the transport: per key the record that is last in log order -/
+theorem source_mrProcessMessage : GeneratedSrc.mrProcessMessage = ExpectedSrc.mrProcessMessage := by rfl
+theorem source_mrProcessInitBuffer : GeneratedSrc.mrProcessInitBuffer = ExpectedSrc.mrProcessInitBuffer := by rfl
+theorem source_mrProcessEvent : GeneratedSrc.mrProcessEvent = ExpectedSrc.mrProcessEvent := by rfl
+theorem source_kcSetup : GeneratedSrc.kcSetup = ExpectedSrc.kcSetup := by rfl
 
 /-! ### influence closure: the pinned functions, and every function of the repository that writes a struct field or package
 variable they read, are unchanged (digests regenerated from /repo on every run; a difference names the functions) -/
